@@ -42,4 +42,42 @@ PROPS = {
         "C19_leaky_new_rejects: empty, single-element and too large supports are rejected (panic), also beyond the "
         "Probability range (after fix 642e4b6); accepted supports get free_weight + size <= 2^P.",
         _LEAKY_NOTE, "Coq proof + correspondence"),
+    "C08_bits": _part(
+        ["Props.C16:C08_bits"], [("fam_bits", "gen_fill", 250, 5000), ("fam_bits", "gen_free", 200, 5000)],
+        "bit coder history with an inspection (get_compressed view) followed by further writes/reads",
+        "C08_bits_*: the view of a bit stack/queue coder equals what finishing it would return; dropping the guard "
+        "leaves an observationally equal coder (normal form), twin-history theorems over all interleavings.",
+        "No axioms. The stack guard may turn `current word full` into `word flushed`: equivalence is observational.",
+        "Coq proof (refinement to list bool) + correspondence"),
+    "C18_bits": _part(
+        ["Props.C16:C18_bits"], [("fam_bits", "gen_fill", 250, 5000), ("fam_bits", "gen_queue", 150, 4000)],
+        "bit coder history with a len / is_empty / maybe_exhausted query",
+        "C18_bits_*: len = number of bits held (None exactly on usize overflow), is_empty, queue maybe_exhausted.",
+        "No axioms.", "Coq proof + correspondence"),
+    "C09_chain": _part(
+        ["Props.C13:C13_encode_err,C13_out_of_remainders"], [("fam_chain", "gen_free", 200, 8000)],
+        "chain coder history with an impossible symbol or an OutOfRemainders encode",
+        "C13_encode_err: the chain coder's only encode errors are ImpossibleSymbol and OutOfRemainders, returned "
+        "without a new coder state.", "No axioms. No direct C09 oracle for this family (correspondence only).",
+        "Coq proof + correspondence"),
+    "C09_huff": _part(
+        ["Props.C15:C15_huff_reject"], [("fam_huff", "gen_int", 60, 3000)],
+        "Huffman tree queried with symbols outside the alphabet",
+        "C15_huff_reject: symbols >= n are rejected with ImpossibleSymbol in both codeword forms.",
+        "No axioms. The C15 oracle of the family covers rejection; no separate C09 oracle.",
+        "Coq proof + correspondence"),
+    "C10_chain": _part(
+        ["Props.C13:C13_decode_err,C13_out_of_data,C13_decode_no_overflow", "Props.C14:C14_oom_independent"],
+        [("fam_chain", "gen_free", 250, 8000), ("fam_chain", "gen_local", 100, 4000)],
+        "chain coder decoding arbitrary data until it runs out",
+        "C13_decode_err / C13_out_of_data / C13_decode_no_overflow: the chain coder's only decode error is "
+        "OutOfCompressedData with an exact condition, and no modelled wrap is ever taken.",
+        "No axioms. No direct C10 oracle for this family: a panic/abort/hang shows as a correspondence failure.",
+        "Coq proof + debug-build correspondence"),
+    "C10_models": _part(
+        ["Props.C20_models:C20_models_queries_sound"], [("fam_models", "gen_valid", 200, 8000)],
+        "lookup / searched model queried on listed or all quantiles",
+        "C20_models_queries_sound: every quantile < 2^P of an accepted lookup or searched model is answered from "
+        "inside the table (the checked get_unchecked / unreachable sites never fire).",
+        "No axioms.", "Coq proof + correspondence"),
 }
